@@ -1003,7 +1003,7 @@ func ruleM6(c *Ctx, e *Env, rule string, forC05 bool) {
 				}
 				switch {
 				case ev.Kind == "write" && ev.Table != nil && ledgerTables[ev.Table.Name] && ev.Row != nil:
-					if forC05 != (ev.Table.Name == "BasketBalance") {
+					if forC05 && ev.Table.Name != "BasketBalance" {
 						continue
 					}
 					for col, v := range ev.Row {
@@ -1014,7 +1014,7 @@ func ruleM6(c *Ctx, e *Env, rule string, forC05 bool) {
 							badPos = p.Pos(ev.Pos.Pos())
 						}
 					}
-				case forC05 && isBasket && ev.Kind == "bank" && (ev.Method == "MintCoins" || ev.Method == "BurnCoins"):
+				case isBasket && ev.Kind == "bank" && (ev.Method == "MintCoins" || ev.Method == "BurnCoins"):
 					n++
 					nMint++
 					for _, a := range []Val{r.X.coinsOf(st, ev.Args[len(ev.Args)-1])} {
@@ -1065,13 +1065,13 @@ func ruleM6(c *Ctx, e *Env, rule string, forC05 bool) {
 				fk := funcKey(fn)
 				key := fk + "#" + mathFnName(sc)
 				isBacking := strings.Contains(fk, "basket/keeper")
-				if forC05 != isBacking {
+				if forC05 && !isBacking {
 					continue
 				}
 				if mod == "x/ecocredit" && witnessed[ci] {
 					c.Hold(rule, key, pp.Pos(ci.Pos()), "rounding operation on explored handler paths: its result is tainted and the taint reaches no ledger column and no basket token amount (it feeds prices/fees only)", nil)
 				} else {
-					c.Violate(rule, key, pp.Pos(ci.Pos()), "rounding operation "+mathFnName(sc)+" (34 significant digits) used outside the confirmed price/fee computations: ledger and backing arithmetic must use the exact-or-error family", nil)
+					c.Violate(rule, key, pp.Pos(ci.Pos()), "rounding operation "+mathFnName(sc)+" (34 significant digits) in code the path explorer does not enter (invariants, genesis, queries): nothing vouches for where its result goes — ledger and backing arithmetic must use the exact-or-error family", nil)
 				}
 			}
 		}
